@@ -63,6 +63,15 @@ class CHECK(Check):
                             continue
                         content = "\n".join(combo) + ("\n" if final_nl and n else "")
                         yield {"regdefs": regdefs, "content": content, "kind": "exh"}
+        # identifiers written as regular expressions for a literal text (escaped metacharacters, a group): the pattern's SOURCE is
+        # longer than what it matches, the window is as wide as the matched text
+        for _ in range(150 if tier == "quick" else 3000):
+            regdefs = reglib.gen_regdefs(rng, nmax=3, sci=False)
+            lit, src = rng.choice([("*", "\\*"), ("A.", "A\\."), ("+B", "\\+B"), ("AB", "(AB)"), ("X1", "X[1]"), ("$", "[$]")])
+            regdefs[rng.randrange(len(regdefs))].update({"ident": lit, "ident_re": src, "digits": len(lit) + rng.choice([0, 0, 1])})
+            lines = [gen_line(rng, regdefs) for _ in range(rng.randint(0, 10))]
+            content = "\n".join(lines) + (rng.choice(["\n", "\n", ""]) if lines else "")
+            yield {"regdefs": regdefs, "content": content, "kind": "random"}
         n = 2500 if tier == "quick" else 60000
         for _ in range(n):
             regdefs = reglib.gen_regdefs(rng, delim=rng.random() < 0.15)
